@@ -29,6 +29,9 @@ def cfgstr(mode, bu=ALLBU, props=0):
 
 
 def mesh_job(prop, kernel, seed, cfg, alpha, depth, alpha2=0, depth2=0, caps=None, bcfg="asan", deadline=400, known=()):
+    # depth2 is the TOTAL depth up to which the second alphabet is applied (levels depth+1 .. depth2): a second phase that can never
+    # run is a configuration error (it once made the C16 tuple job vacuous)
+    assert alpha2 == 0 or depth2 > depth, (prop, seed, alpha2, depth, depth2)
     jid = "%s-%s-%s-%s-a%dd%d-a%dd%d-%s" % (prop, kernel, seed, cfg, alpha, depth, alpha2, depth2, bcfg)
     base = ["--prop", prop, "--seed", seed, "--cfg", cfg]
     args = base + ["--alpha", str(alpha), "--depth", str(depth), "--alpha2", str(alpha2), "--depth2", str(depth2),
@@ -52,8 +55,9 @@ def seed_class(seed):
 
 
 def tiered(prop, tier, known, plan, kernels=("poly", "tet", "hex"), modes=MODES, busets=(ALLBU,), props=0, bcfg="fast",
-           seeds=None, asan_plan=None, asan_cfgs=(("d1f1", ALLBU), ("d0f0", ALLBU))):
-    """plan[tier][class] = (alpha, depth, alpha2, depth2) or None"""
+           seeds=None, asan_plan=None, asan_cfgs=(("d1f1", ALLBU), ("d0f0", ALLBU)), heavy=()):
+    """plan[tier][class] = (alpha, depth, alpha2, depth2) or None; seeds listed in `heavy` keep the quick bounds in the thorough tier
+    (measured: one more level does not complete within the per-job deadline for them)"""
     js = []
     dl = 300 if tier == "quick" else 600
     for kernel in kernels:
@@ -61,13 +65,14 @@ def tiered(prop, tier, known, plan, kernels=("poly", "tet", "hex"), modes=MODES,
             if seeds is not None and seed not in seeds:
                 continue
             cls = seed_class(seed)
-            pl = plan[tier].get(cls)
+            ptier = "quick" if (tier == "thorough" and seed in heavy) else tier
+            pl = plan[ptier].get(cls)
             if pl:
                 for mode in modes:
                     for bu in busets:
                         js.append(mesh_job(prop, kernel, seed, cfgstr(mode, bu, props), pl[0], pl[1], pl[2], pl[3], bcfg=bcfg, deadline=dl, known=known))
-            if asan_plan and asan_plan[tier].get(cls):
-                pl = asan_plan[tier][cls]
+            if asan_plan and asan_plan[ptier].get(cls):
+                pl = asan_plan[ptier][cls]
                 for mode, bu in asan_cfgs:
                     js.append(mesh_job(prop, kernel, seed, cfgstr(mode, bu, props), pl[0], pl[1], pl[2], pl[3], bcfg="asan", deadline=dl, known=known))
     return js
@@ -86,7 +91,7 @@ ASAN_PLAN = {
 
 
 def jobs_state(prop):
-    return lambda tier, known: tiered(prop, tier, known, STATE_PLAN, asan_plan=ASAN_PLAN) + tiered(prop, tier, known, STATE_PLAN_B, modes=["d1f1", "d0f0"])
+    return lambda tier, known: tiered(prop, tier, known, STATE_PLAN, asan_plan=ASAN_PLAN, heavy=("S2",)) + tiered(prop, tier, known, STATE_PLAN_B, modes=["d1f1", "d0f0"])
 
 
 TRANS_PLAN = {
@@ -99,24 +104,24 @@ def jobs_c02(tier, known):
     # deletion-centric alphabet; all incidence subsets on a reduced seed list
     plan = {"quick": {"small": (A_DELETION, 3, 0, 0), "medium": (A_DELETION, 1, A_R2NB, 3), "large": (A_DELETION, 1, A_R2NB, 2)},
             "thorough": {"small": (A_DELETION, 3, A_R2NB, 4), "medium": (A_DELETION, 1, A_R2NB, 4), "large": (A_DELETION, 1, A_R2NB, 3)}}
-    js = tiered("C02", tier, known, plan, asan_plan=ASAN_PLAN)
+    js = tiered("C02", tier, known, plan, asan_plan=ASAN_PLAN, heavy=("S7", "S10b", "S11", "S16", "S18a", "S19"))
     bu_plan = {"quick": {"small": (A_DELETION, 2, 0, 0), "medium": (A_DELETION, 1, A_R2NB, 2), "large": None},
                "thorough": {"small": (A_DELETION, 2, A_R2NB, 3), "medium": (A_DELETION, 1, A_R2NB, 3), "large": (A_DELETION, 1, A_R2NB, 2)}}
-    js += tiered("C02", tier, known, bu_plan, busets=[b for b in BUSETS if b != ALLBU])
+    js += tiered("C02", tier, known, bu_plan, busets=[b for b in BUSETS if b != ALLBU], heavy=("S7", "S10b", "S11", "S16", "S18a", "S19"))
     return js
 
 
 def jobs_c03(tier, known):
     plan = {"quick": {"small": (A_FULL | A_PROP, 2, A_R2, 3), "medium": (A_FULL | A_PROP, 1, A_R2 | A_PROP, 2), "large": (A_FULL | A_PROP, 1, 0, 0)},
             "thorough": {"small": (A_FULL | A_PROP, 2, A_R2, 4), "medium": (A_FULL | A_PROP, 1, A_R2 | A_PROP, 3), "large": (A_FULL | A_PROP, 1, A_R2 | A_PROP, 2)}}
-    return tiered("C03", tier, known, plan, props=1, asan_plan=ASAN_PLAN)
+    return tiered("C03", tier, known, plan, props=1, asan_plan=ASAN_PLAN, heavy=("S2", "S4a", "S4b", "S5", "S10b", "S11", "S19"))
 
 
 def jobs_c17(tier, known):
     A_SW = A_SWAP
     plan = {"quick": {"small": (A_FULL, 1, A_SW, 2), "medium": (A_R2NB | A_ADDV | A_ADDE, 1, A_SW, 2), "large": (A_SW, 1, 0, 0)},
             "thorough": {"small": (A_FULL, 2, A_SW, 3), "medium": (A_FULL, 1, A_SW, 2), "large": (A_R2NB, 1, A_SW, 2)}}
-    js = tiered("C17", tier, known, plan, props=1, asan_plan={"quick": {"small": (A_SW, 1, 0, 0), "medium": (A_SW, 1, 0, 0), "large": None},
+    js = tiered("C17", tier, known, plan, props=1, heavy=("S16",), asan_plan={"quick": {"small": (A_SW, 1, 0, 0), "medium": (A_SW, 1, 0, 0), "large": None},
                                                               "thorough": {"small": (A_SW, 2, 0, 0), "medium": (A_SW, 1, 0, 0), "large": (A_SW, 1, 0, 0)}})
     bu_plan = {"quick": {"small": (A_SW, 1, 0, 0), "medium": (A_SW, 1, 0, 0), "large": None},
                "thorough": {"small": (A_R2NB, 1, A_SW, 2), "medium": (A_R2NB, 1, A_SW, 2), "large": (A_SW, 1, 0, 0)}}
@@ -183,7 +188,7 @@ def jobs_c13(tier, known):
             "thorough": {"small": (A_FULL, 2, A_R2, 3), "medium": (A_FULL, 1, A_R2, 3), "large": (A_FULL, 1, 0, 0)}}
     asan = {"quick": {"small": (A_FULL, 1, 0, 0), "medium": (A_R2, 1, 0, 0), "large": None},
             "thorough": {"small": (A_FULL, 2, 0, 0), "medium": (A_FULL, 1, 0, 0), "large": (A_R2, 1, 0, 0)}}
-    js = tiered("C13", tier, known, plan, props=1, asan_plan=asan)
+    js = tiered("C13", tier, known, plan, props=1, asan_plan=asan, heavy=("S2", "S4a", "S4b", "S5") + tuple(MEDIUM))
     js += tiered("C13", tier, known, {"quick": {"small": (A_R2, 1, 0, 0), "medium": (A_R2, 1, 0, 0), "large": None},
                                       "thorough": {"small": (A_FULL, 1, 0, 0), "medium": (A_R2, 1, 0, 0), "large": (A_R2, 1, 0, 0)}},
                  props=1, busets=["v0e0f0", "v1e0f1"], modes=["d1f1", "d0f0"])
@@ -200,7 +205,7 @@ def jobs_c15(tier, known):
             "thorough": {"small": (full, 2, r2, 3), "medium": (full, 1, r2, 3), "large": (full, 1, r2, 2)}}
     asan = {"quick": {"small": (full, 1, 0, 0), "medium": (full, 1, 0, 0), "large": (r2, 1, 0, 0)},
             "thorough": {"small": (full, 2, 0, 0), "medium": (full, 1, r2, 2), "large": (full, 1, 0, 0)}}
-    return tiered("C15", tier, known, plan, kernels=("tet",), asan_plan=asan)
+    return tiered("C15", tier, known, plan, kernels=("tet",), asan_plan=asan, heavy=("S10b", "S11", "S19"))
 
 
 def jobs_c16(tier, known):
@@ -210,7 +215,7 @@ def jobs_c16(tier, known):
             "thorough": {"small": (full, 2, r2, 3), "medium": (full, 1, r2, 3), "large": (r2, 3, 0, 0)}}
     asan = {"quick": {"small": (full, 1, 0, 0), "medium": (full, 1, 0, 0), "large": (r2, 1, 0, 0)},
             "thorough": {"small": (full, 2, 0, 0), "medium": (full, 1, r2, 2), "large": (r2, 2, 0, 0)}}
-    js = tiered("C16", tier, known, plan, kernels=("hex",), asan_plan=asan)
+    js = tiered("C16", tier, known, plan, kernels=("hex",), asan_plan=asan, heavy=("S16",))
     # all 6-tuples over the halffaces of a freed hex surface (all 720 permutations of a valid list among them, every list with
     # repeated halffaces) through the topology-checked add_cell: level 1 = delete_cell of every cell, level 2 = the tuples
     dl = 300 if tier == "quick" else 600
@@ -223,11 +228,11 @@ def jobs_c16(tier, known):
 def jobs_c12(tier, known):
     plan = {"quick": {"small": (A_FULL, 2, 0, 0), "medium": (A_FULL, 1, 0, 0), "large": (A_R2, 1, 0, 0)},
             "thorough": {"small": (A_FULL, 2, A_R2, 3), "medium": (A_FULL, 1, A_R2, 2), "large": (A_FULL, 1, 0, 0)}}
-    js = tiered("C12", tier, known, plan, busets=BUSETS, props=1)
+    js = tiered("C12", tier, known, plan, busets=BUSETS, props=1, heavy=tuple(MEDIUM) + ("S16",))
     deep = {"quick": {"small": None, "medium": (A_FULL, 1, A_R2, 2), "large": None},
             "thorough": {"small": None, "medium": (A_FULL, 1, A_R2, 3), "large": (A_FULL, 1, A_R2, 2)}}
     js += tiered("C12", tier, known, deep, busets=["v0e0f0", "v1e0f1", "v1e1f0", "v0e1f1"], modes=["d1f1", "d0f0"], props=1,
-                 seeds=["S7", "S11", "S17", "S18a"] if tier == "quick" else None)
+                 seeds=["S7", "S11", "S17", "S18a"] if tier == "quick" else None, heavy=("S7", "S10b", "S11", "S16", "S18a", "S19"))
     asan = {"quick": {"small": (A_FULL, 1, 0, 0), "medium": (A_FULL, 1, 0, 0), "large": (A_R2, 1, 0, 0)},
             "thorough": {"small": (A_FULL, 2, 0, 0), "medium": (A_FULL, 1, A_R2, 2), "large": (A_FULL, 1, 0, 0)}}
     js += tiered("C12", tier, known, {"quick": {}, "thorough": {}}, props=1, asan_plan=asan,
@@ -290,7 +295,7 @@ def jobs_c19(tier, known):
 
 
 def jobs_c08(tier, known):
-    js = tiered("C08", tier, known, STATE_PLAN, asan_plan=ASAN_PLAN)
+    js = tiered("C08", tier, known, STATE_PLAN, asan_plan=ASAN_PLAN, heavy=("S2",))
     js.append({"id": "C08-handlemc-2^30", "cfg": "fast", "bin": "handlemc", "args": [], "replay_args": [], "timeout": 1200})
     return js
 
